@@ -770,9 +770,13 @@ func geometry(c *vk.C, t *tor.Torrent, v *view, in []byte) {
 		return
 	}
 	if L < 0 {
-		// a negative total only arises from a negative file length or a wrapped sum, both reported above;
-		// slot and piece counts have no meaning for it
+		// for a multi-file torrent a negative total only arises from a negative file length or a wrapped
+		// sum, both reported above; a single-file torrent has its length straight from the input. No piece
+		// table or slot count matches a negative length, so the geometry is not self-consistent.
 		c.Count("accepted_negative_total", 1)
+		if t.Files == nil {
+			bad("negative-total", fmt.Sprintf("accepted single-file torrent has total length %d (%d piece hashes, piece length %d)", L, nh, ps))
+		}
 		return
 	}
 	if want := ceilDiv(bl, chunk); big.NewInt(int64(inF.Len())).Cmp(want) != 0 {
@@ -1324,6 +1328,19 @@ func systematic() []sysCase {
 			s.info.Set("length", l)
 		}
 		add(fmt.Sprintf("single length=%d", l), s)
+	}
+	// negative single-file lengths next to exactly one (or no) piece hash: with truncating division
+	// "length / piece length, plus one if there is a remainder" is 1 for every length in (-piece length, 0)
+	for _, pl := range []int64{16384, 32768} {
+		for _, l := range []int64{-1, -5, -16383, -pl + 1, -pl, -pl - 1} {
+			for _, nh := range []int{0, 1} {
+				s := baseS()
+				s.info.Set("piece length", pl)
+				s.info.Set("length", l)
+				s.info.Set("pieces", bytes.Repeat([]byte("0123456789abcdefghij"), nh))
+				add(fmt.Sprintf("single length=%d piece-length=%d hashes=%d", l, pl, nh), s)
+			}
+		}
 	}
 	// lengths beyond 2^32 with piece lengths that are not powers of two: 32-bit remainders go wrong here
 	for _, pl := range []int64{48 << 10, 80 << 10, 3 << 20} {
